@@ -90,6 +90,18 @@ Section C16.
     decorate singular c k = Ok d ->
     In (n, g1) (registrations c (d_attrs d)) -> In (n, g2) (registrations c (d_attrs d)) -> g1 = g2.
   Proof. exact (no_shadowing singular). Qed.
+  (* A configuration whose constructor would have one name for two parameters
+     (key = overflow attribute, or either named `self`) cannot be decorated:
+     decoration raises; and ValueError is raised only for that or for a private
+     name in attrs / attrs_typed / init_overflow_attr. *)
+  Theorem C16_contradictory_constructor_raises : forall c k,
+    contradictory_constructor c = true -> exists e, decorate singular c k = Err e.
+  Proof. exact (contradictory_constructor_raises singular). Qed.
+
+  Theorem C16_value_error_only_when_justified : forall c k,
+    decorate singular c k = Err ValueErr ->
+    existsb is_private (map fst (dattrs c)) = true \/ contradictory_constructor c = true.
+  Proof. exact (value_error_only_when_justified singular). Qed.
 End C16.
 
 (* ---- non-vacuity: a class with user code under generated names *)
@@ -145,6 +157,8 @@ Print Assumptions C16_exact_helper_set.
 Print Assumptions C16_item_names_follow_rule.
 Print Assumptions C16_private_unmanaged.
 Print Assumptions C16_no_shadowing.
+Print Assumptions C16_contradictory_constructor_raises.
+Print Assumptions C16_value_error_only_when_justified.
 Print Assumptions C16_decoration_succeeds_somewhere.
 Print Assumptions C16_old_collision_check_refuted.
 Print Assumptions C16_collision_falls_back_now.
